@@ -174,7 +174,18 @@ Definition apply_edit (w : world) (e : edit) : world :=
   end.
 
 (* ---- hasher calls ---- *)
-Record call := mkC { c_path : N; c_pos : N; c_len : N; c_fail : bool }.   (* c_fail: the read fails (I/O error) *)
+(* what the I/O of one call does (the file exists and stat works): fine / open() fails (e.g. permissions) /
+   every read() fails (EIO; EISDIR when the path is a directory) *)
+Inductive io := IoOk | IoOpenFails | IoReadFails.
+Record call := mkC { c_path : N; c_pos : N; c_len : N; c_io : io }.
+(* hash_file: `scan` does not call read() at all for an empty chunk *)
+Definition raw_fails (cl : call) : bool :=
+  match c_io cl with IoOk => false | IoOpenFails => true | IoReadFails => negb (c_len cl =? 0) end.
+(* hash_transformed: fclones opens / copies the input itself, and the transform program reads the whole
+   file whatever the chunk length is; ASSUMPTION: a program that cannot read its input exits with a failure
+   (a program that ignores the error and exits 0 is outside the model; the check does not generate that) *)
+Definition tr_fails (cl : call) : bool :=
+  match c_io cl with IoOk => false | _ => true end.
 Inductive result := RHash (h : hashv) | RTHash (dl : N) (h : hashv) | RFail | RPanic.
 
 (* a run = a program of hasher calls; what it asks next may depend on every earlier answer
@@ -195,13 +206,13 @@ Definition hash_plain (a : N) (tr : option tconf) (w : world) (cl : call) : resu
   | None =>
       match stat w (c_path cl) with
       | None => RFail
-      | Some (m, d) => if c_fail cl then RFail else RHash (H a (chunk (c_pos cl) (c_len cl) d))
+      | Some (m, d) => if raw_fails cl then RFail else RHash (H a (chunk (c_pos cl) (c_len cl) d))
       end
   | Some cf =>
       if negb (c_pos cl =? 0) then RPanic else
       match stat w (c_path cl) with
       | None => RFail
-      | Some (m, d) => if c_fail cl then RFail else
+      | Some (m, d) => if tr_fails cl then RFail else
                        match T cf d with
                        | None => RFail
                        | Some d' => RTHash (nlen d') (H a d')
@@ -220,7 +231,7 @@ Definition hash_cached (a : N) (tr : option tconf) (c : cache) (w : world) (cl :
           let k := cache_key m (c_pos cl) (c_len cl) in
           match cache_get t k m c with
           | Some (_, h) => (RHash h, c)
-          | None => if c_fail cl then (RFail, c) else
+          | None => if raw_fails cl then (RFail, c) else
                     let h := H a (chunk (c_pos cl) (c_len cl) d) in
                     (RHash h, cache_put t k m (c_len cl) h c)
           end
@@ -233,7 +244,7 @@ Definition hash_cached (a : N) (tr : option tconf) (c : cache) (w : world) (cl :
           let k := cache_key m (c_pos cl) (c_len cl) in
           match cache_get t k m c with
           | Some (dl, h) => (RTHash dl h, c)
-          | None => if c_fail cl then (RFail, c) else
+          | None => if tr_fails cl then (RFail, c) else
                     match T cf d with
                     | None => (RFail, c)
                     | Some d' => let h := H a d' in (RTHash (nlen d') h, cache_put t k m (nlen d') h c)
